@@ -507,4 +507,68 @@ def dsPanicEvs : List (Compose.Ev Move) :=
 end Ex
 
 
+
+/-! ## the lock, and non-vacuity -/
+
+/-- **`lock_faithful`** — in every reachable state of the composed system at most one thinker is inside `Bot.GetMove`
+(`C07.lock_exclusive`, transported along `compose_refines`), and the call the model considers in progress belongs to a
+thinker that exists and was started on the position the call was handed.  So between `enter k` and `leave k` nobody
+else runs `Friendly.GetMove` / `Taktician.GetMove`: the FPA rule's notes and the ONE engine object are touched by one
+goroutine at a time, which is what makes threading them through the events (instead of sharing them between
+concurrent calls) a faithful model.  This is where C16's "after a cancelled search the same engine still gives correct
+results" meets the bot: the cancelled ponder search and the next search run one after the other on the same state. -/
+theorem lock_faithful (c : Compose.Conf) (hfix : c.bot.fixed = true) (hsize : 3 ≤ c.size ∧ c.size ≤ 8)
+    (S : Searcher σ χ) (secs : Int) (eng0 : σ) (evs : List (Compose.Ev χ)) :
+    holders (Compose.run c S (Compose.start c secs eng0) evs).b ≤ 1 ∧
+    ∀ call, (Compose.run c S (Compose.start c secs eng0) evs).inside = some call →
+      call ∈ (Compose.run c S (Compose.start c secs eng0) evs).calls ∧
+      ∃ t, thinkerAt (Compose.run c S (Compose.start c secs eng0) evs).b call.k = some t ∧ t.pos = call.pos := by
+  refine ⟨(composed_loop_facts c hfix hsize S secs eng0 evs).2.1, ?_⟩
+  obtain ⟨p0, _, hP⟩ := pinv_startBot c secs hsize
+  have hA : ∀ (p : Pos) (m : Move) (q : Pos), p.cfg.size = c.size → p.apply c.bot.basis m = .ok q → q.cfg.size = c.size :=
+    fun p m q hp ha => by rw [apply_cfg ha]; exact hp
+  have hz : ∀ (p q : Pos), p.cfg.size = c.size → p.apply c.bot.basis Bot.zeroMove ≠ .ok q :=
+    fun p q hp => zero_rejected c.bot.basis c.size hsize p q hp
+  exact (cinv_run (A := fun p => p.cfg.size = c.size) (G := fun _ => True) hA (fun _ _ _ _ _ _ _ _ => trivial) hz _ hP
+    (cinv_start c S _ secs eng0 trivial) evs).1.inside
+
+open Ex in
+/-- non-vacuity of `bot_inv_composed` / `bot_inv_friendly`: the cairn game above is an event list of the composed system
+(bot White, 5×5, `fixed`, sizes in range); three moves are transmitted — one searched (`a1`, the stub's answer), two
+scripted —, seven `GetMove` calls are recorded, the last one resigns, one call is in progress (it waits on its context) -/
+example :
+    (conf .white 5 (.friendly (some .cairn)) true).bot.fixed = true ∧
+    (go (conf .white 5 (.friendly (some .cairn)) true) cairnEvs).b.log.length = 3 ∧
+    (go (conf .white 5 (.friendly (some .cairn)) true) cairnEvs).calls.length = 7 ∧
+    (go (conf .white 5 (.friendly (some .cairn)) true) cairnEvs).rets.length = 6 ∧
+    ((go (conf .white 5 (.friendly (some .cairn)) true) cairnEvs).calls.map (·.act.searches)) =
+      [true, false, false, false, false, false, false] ∧
+    ((go (conf .white 5 (.friendly (some .cairn)) true) cairnEvs).inside.map (·.k)) = some 6 ∧
+    holders (go (conf .white 5 (.friendly (some .cairn)) true) cairnEvs).b = 1 := by
+  decide +kernel
+
+/-- the oracle type of `minimaxOK` is inhabited: the quiet oracle (never cancels, keeps the generation order) -/
+example : Search.OrderOK (Search.Oracle.quiet : Search.Oracle Move) := fun _ _ _ => Iff.rfl
+
+open Ex in
+/-- non-vacuity of `bot_inv_taktician`: a Taktician game (bot White, pondering on) in which two searched moves are
+transmitted and a pondering search is cancelled by the opponent's move; nothing is sent from inside `GetMove` -/
+example :
+    let c := conf .white 5 (.taktician { limit := 60000000000, useOpponentTime := true }) true
+    let s := go c [.enter 0 quiet, .leave 0 (place 0 0), .enter 1 quiet, srv ["P", "E5"] (place 4 4), tm, .leave 1 zm,
+                   .enter 2 quiet, .leave 2 (place 2 2)]
+    s.b.sent = [.move (place 0 0), .move (place 2 2)] ∧ glueWire s.wire = [] ∧ s.calls.length = 3 ∧
+    (s.calls.map (·.act)) = [.think (some 20000000000) none, .think none none, .think (some 60000000000) none] ∧
+    s.b.moves = s.b.srvMoves ∧ s.dead = none := by
+  decide +kernel
+
+open Ex in
+/-- non-vacuity of `current_thinker_total`: in the state after `a1 e5` of the cairn game the current thinker's call runs
+through (it takes the rule's script `b3`), the loop has not crashed and the record holds three positions -/
+example :
+    let s := go (conf .white 5 (.friendly (some .cairn)) true) (cairnEvs.take 6)
+    s.b.status = .running ∧ s.b.positions.length = 3 ∧ s.b.cur.pos.move = 2 ∧
+    (glueCall (conf .white 5 (.friendly (some .cairn)) true) s.fpa s.b s.b.cur quiet).toOption.map (·.2) = some (.move (place 1 2)) := by
+  decide +kernel
+
 end C07
